@@ -2,6 +2,7 @@
 // Usage: <harness-plain> <config> with SYM_REPLAY=<violation.json>; prints CONFIRMED-VIOLATION lines and OUT lines.
 #include <cmath>
 #include <cstdio>
+#include <cstring>
 #include <cstdlib>
 #include <map>
 #include <string>
@@ -39,6 +40,15 @@ int sym_choose(const char* name, int n)
 }
 void sym_assume_cmp(double a, int op, double b)
 {
+    // validation runs on pseudo-random inputs: an assumption that fails ends the run, exactly as in the instrumented build
+    const char* rp = getenv("SYM_REPLAY");
+    if (getenv("SYM_RANDOM_SEED") && (!rp || strcmp(rp, "/dev/null") == 0) && !symc::concrete_holds(a, op, b, 0.0))
+    {
+        printf("REPLAY-NOTE assumption false on the pseudo-random inputs: run ends (pruned)\n");
+        printf("REPLAY-SUMMARY checks=%d violations=%d\n", checks, violations);
+        fflush(stdout);
+        _Exit(violations ? 1 : 0);
+    }
     if (!symc::concrete_holds(a, op, b, 1e-12))
     {
         printf("REPLAY-NOTE assumption does not hold exactly on doubles (a=%.17g op=%d b=%.17g)\n", a, op, b);
@@ -129,6 +139,8 @@ int main(int argc, char** argv)
     catch (const std::exception& e)
     {
         printf("REPLAY-NOTE uncaught exception: %s\n", e.what());
+        printf("CONFIRMED-VIOLATION label=harness body ended by an uncaught exception (boolean)\n");
+        ++violations;
     }
     printf("REPLAY-SUMMARY checks=%d violations=%d\n", checks, violations);
     return violations ? 1 : 0;
